@@ -108,11 +108,11 @@ func Load(opt Options) (*Prog, error) {
 		var names []string
 		for f := range ssautil.AllFunctions(prog) {
 			if InModule(f) && f.Synthetic == "" {
-				var ps []string
+				line := FuncName(f)
 				for _, prm := range f.Params {
-					ps = append(ps, prm.Name())
+					line += "\t" + prm.Name() + "\t" + prm.Type().String()
 				}
-				names = append(names, FuncName(f)+"\t"+strings.Join(ps, ","))
+				names = append(names, line)
 			}
 		}
 		sort.Strings(names)
